@@ -20,26 +20,35 @@ open Dippy
 variable (w : World) (rec : Rec) (h : HelpTables)
 
 /-- **redirections**: in an approved tree, every reachable redirection whose operator writes and whose
-    target is not a non-file sink is granted by a redirect rule whose decision is allow -/
+    target is neither a non-file sink nor (spelled with a bare `&`) a descriptor is granted by a redirect rule
+    whose decision is allow – and its spelling carries no quote or backslash that bash would still remove
+    (`/tmp/out/".."/x` is never matched as spelled) -/
 theorem write_redirect_granted (n : Node) (cwd cwd' : String) (op : String) (t : Word)
     (ha : (aNode w rec h n cwd false).action = .allow)
     (hr : Reach w.resolveCd w.arithWalked false (.node n, cwd) (.redir (.redirect op (some t)), cwd'))
     (hop : w.redirectOp (stripFd op) = true)
-    (hsink : ((w.safeTarget (wordValue t) && wordValue t != "-") || Py.startsWith (wordValue t) "&") = false) :
-    ∃ m, w.matchRedirect (wordValue t) cwd' = some m ∧ m.decision = .allow := by
+    (hsink : (w.safeTarget (wordValue t) && wordValue t != "-") = false)
+    (hamp : Py.startsWith t.value "&" = false) :
+    hasInnerQuoting (wordValue t) = false
+      ∧ ∃ m, w.matchRedirect (wordValue t) cwd' = some m ∧ m.decision = .allow := by
   have hx := reach_atoms w false _ _ hr (.redir op (wordValue t) cwd') (by
     simp only [Piece.atoms]
     rw [flatRedirects_single]
-    simp)
+    simp [hamp])
   have hall := C01.allow_covers_atoms w rec h n cwd false ha _ hx
   simp only [atomDecisions, redirectDecision, hsink, Bool.false_eq_true, ↓reduceIte, hop] at hall
-  cases hm : w.matchRedirect (wordValue t) cwd' with
-  | none => simp [hm] at hall
-  | some m =>
-    refine ⟨m, rfl, ?_⟩
-    simp only [hm] at hall
-    cases hd : m.decision <;> simp [hd] at hall
-    rfl
+  cases hq : hasInnerQuoting (wordValue t) with
+  | true => simp [hq] at hall
+  | false =>
+    refine ⟨rfl, ?_⟩
+    simp only [hq, Bool.false_eq_true, ↓reduceIte] at hall
+    cases hm : w.matchRedirect (wordValue t) cwd' with
+    | none => simp [hm] at hall
+    | some m =>
+      refine ⟨m, rfl, ?_⟩
+      simp only [hm] at hall
+      cases hd : m.decision <;> simp [hd] at hall
+      rfl
 
 /-- with a configuration as the rule engine: the *last* redirect rule matching the denoted file allows -/
 theorem write_granted_by_last_rule (env : PathEnv) (cfg : Config) (target cwd : String) (m : Match)
@@ -93,6 +102,9 @@ theorem tool_targets_granted (tokens : List String) (cwd : String) (t : String)
         | head => simp [hsa] at hsink
         | tail _ h' => exact ih h'
       · simp only [hsa, Bool.false_eq_true, ↓reduceIte]
+        by_cases hq : hasInnerQuoting a = true
+        · simp [hq]
+        simp only [hq, Bool.false_eq_true, ↓reduceIte]
         cases hm : w.matchRedirect a cwd with
         | none => simp
         | some m =>
@@ -123,11 +135,13 @@ theorem tool_targets_granted (tokens : List String) (cwd : String) (t : String)
                       split at hd
                       · exact ihb d hd
                       · split at hd
-                        · split at hd
-                          · simp at hd; rw [← hd]; simp
-                          · simp at hd; rw [← hd]; simp
-                          · exact ihb d hd
                         · simp at hd; rw [← hd]; simp
+                        · split at hd
+                          · split at hd
+                            · simp at hd; rw [← hd]; simp
+                            · simp at hd; rw [← hd]; simp
+                            · exact ihb d hd
+                          · simp at hd; rw [← hd]; simp
                   exact hgen as d hc
               | none => simp only; exact ⟨m, hm, hd⟩
             | tail _ h' => exact ih h'
